@@ -12,7 +12,11 @@ mod verif_drawing {
     use rten_tensor::NdTensor;
     use rten_tensor::prelude::*;
 
-    /// Image height/width of the frame harnesses.
+    /// Image height and width of the frame harnesses. Deliberately not square, so that a
+    /// rows/columns mix-up in the code under check is visible.
+    const H: usize = 3;
+    const W: usize = 4;
+    /// Upper bound of both (storage of the symbolic image).
     const N: usize = 4;
     /// Coordinate window [LO, HI]: three pixels beyond the image on every side.
     const LO: i32 = -3;
@@ -74,32 +78,32 @@ mod verif_drawing {
     }
 
     fn z_clamp_pt(p: Point) -> Point {
-        Point::from_yx(z_clamp(p.y, N), z_clamp(p.x, N))
+        Point::from_yx(z_clamp(p.y, H), z_clamp(p.x, W))
     }
 
     // ------------------------------------------------------------------ fill_rect
 
-    /// Rect inside the image (edges in [0, N], possibly inverted / empty):
+    /// Rect inside the image (edges in [0, H] x [0, W], possibly inverted / empty):
     /// only pixels inside the rect change.
     #[kani::proof]
     #[kani::unwind(5)]
     pub fn fill_rect_in_image() {
-        let (old, mut img) = any_image::<N, N>();
+        let (old, mut img) = any_image::<H, W>();
         let (t, l, b, r) = (
-            any_edge_in::<N>(),
-            any_edge_in::<N>(),
-            any_edge_in::<N>(),
-            any_edge_in::<N>(),
+            any_edge_in::<H>(),
+            any_edge_in::<W>(),
+            any_edge_in::<H>(),
+            any_edge_in::<W>(),
         );
         let v: u8 = kani::any();
         fill_rect(img.view_mut(), Rect::from_tlbr(t, l, b, r), v);
-        let (y, x) = any_px::<N, N>();
+        let (y, x) = any_px::<H, W>();
         if changed(&old, &img, y, x) {
             assert!(in_rect(y, x, t, l, b, r), "fill_rect changed a pixel outside the rect");
         }
         kani::cover!(changed(&old, &img, y, x), "some pixel is changed");
         kani::cover!(b < t || r < l, "inverted rect reaches the end");
-        kani::cover!(t == 0 && l == 0 && b == N as i32 && r == N as i32, "full-image rect");
+        kani::cover!(t == 0 && l == 0 && b == H as i32 && r == W as i32, "full-image rect");
     }
 
     /// Any rect with coordinates in [LO, HI] (partly or wholly outside the image, inverted,
@@ -107,21 +111,21 @@ mod verif_drawing {
     #[kani::proof]
     #[kani::unwind(8)]
     pub fn fill_rect_any_rect() {
-        let (old, mut img) = any_image::<N, N>();
+        let (old, mut img) = any_image::<H, W>();
         let (t, l, b, r) = (any_coord(), any_coord(), any_coord(), any_coord());
         // Side lengths <= MAX_SIDE (two more than the image: the rect can overhang on both
         // sides at once); keeps the loop unwinding small.
         kani::assume(b - t <= MAX_SIDE && r - l <= MAX_SIDE);
         let v: u8 = kani::any();
         fill_rect(img.view_mut(), Rect::from_tlbr(t, l, b, r), v);
-        let (y, x) = any_px::<N, N>();
+        let (y, x) = any_px::<H, W>();
         if changed(&old, &img, y, x) {
             assert!(in_rect(y, x, t, l, b, r), "fill_rect changed a pixel outside the rect");
         }
         kani::cover!(changed(&old, &img, y, x), "some pixel is changed");
         kani::cover!(b < t || r < l, "inverted rect reaches the end");
         kani::cover!(
-            t < 0 && b - t == MAX_SIDE && l > 0 && r > N as i32 && changed(&old, &img, y, x),
+            t < 0 && b - t == MAX_SIDE && l > 0 && r > W as i32 && changed(&old, &img, y, x),
             "rect overhanging three sides of the image changes a pixel"
         );
     }
@@ -296,7 +300,7 @@ mod verif_drawing {
     #[kani::proof]
     #[kani::unwind(6)]
     pub fn draw_line_thin_clamped_box() {
-        let (old, mut img) = any_image::<N, N>();
+        let (old, mut img) = any_image::<H, W>();
         let (p, q) = any_line();
         // The width is passed as a literal: symbolic execution does not prune the wide-line
         // branch (float geometry + polygon fill) on a merely *assumed* width.
@@ -307,7 +311,7 @@ mod verif_drawing {
         } else {
             draw_line(img.view_mut(), Line::from_endpoints(p, q), v, 1);
         }
-        let (y, x) = any_px::<N, N>();
+        let (y, x) = any_px::<H, W>();
         if changed(&old, &img, y, x) {
             assert!(width == 1, "draw_line with width 0 changed a pixel");
             assert!(
@@ -317,7 +321,7 @@ mod verif_drawing {
         }
         kani::cover!(changed(&old, &img, y, x), "some pixel is changed");
         kani::cover!(width == 0, "zero width");
-        kani::cover!(p.y < 0 && q.x > N as i32, "endpoints outside the image");
+        kani::cover!(p.y < 0 && q.x > W as i32, "endpoints outside the image");
     }
 
     /// Thin line, endpoints anywhere in the window: changed pixels lie inside the line's own
@@ -325,11 +329,11 @@ mod verif_drawing {
     #[kani::proof]
     #[kani::unwind(6)]
     pub fn draw_line_thin_line_box() {
-        let (old, mut img) = any_image::<N, N>();
+        let (old, mut img) = any_image::<H, W>();
         let (p, q) = any_line();
         let v: u8 = kani::any();
         draw_line(img.view_mut(), Line::from_endpoints(p, q), v, 1);
-        let (y, x) = any_px::<N, N>();
+        let (y, x) = any_px::<H, W>();
         if changed(&old, &img, y, x) {
             assert!(
                 in_closed_box(y, x, p, q),
@@ -348,14 +352,14 @@ mod verif_drawing {
         let v: u8 = kani::any();
         let zero_rows: bool = kani::any();
         if zero_rows {
-            let (_old, mut img) = any_image::<0, N>();
+            let (_old, mut img) = any_image::<0, W>();
             draw_line(img.view_mut(), Line::from_endpoints(p, q), v, 1);
         } else {
-            let (_old, mut img) = any_image::<N, 0>();
+            let (_old, mut img) = any_image::<H, 0>();
             draw_line(img.view_mut(), Line::from_endpoints(p, q), v, 1);
         }
-        kani::cover!(zero_rows, "0 x N image done");
-        kani::cover!(!zero_rows, "N x 0 image done");
+        kani::cover!(zero_rows, "0 x W image done");
+        kani::cover!(!zero_rows, "H x 0 image done");
     }
 
     // ------------------------------------------------------------------ draw_polygon (thin outline)
@@ -364,7 +368,7 @@ mod verif_drawing {
     /// 0 or 1: no panic; changed pixels lie inside the closed box spanned by the vertices
     /// clamped to the image.
     fn draw_polygon_frame(n: usize) -> bool {
-        let (old, mut img) = any_image::<N, N>();
+        let (old, mut img) = any_image::<H, W>();
         let pts = [
             Point::from_yx(any_coord(), any_coord()),
             Point::from_yx(any_coord(), any_coord()),
@@ -378,7 +382,7 @@ mod verif_drawing {
         } else {
             draw_polygon(img.view_mut(), &pts[..n], v, 1);
         }
-        let (y, x) = any_px::<N, N>();
+        let (y, x) = any_px::<H, W>();
         if changed(&old, &img, y, x) {
             assert!(width == 1 && n >= 2, "draw_polygon changed a pixel for an empty outline");
             let (yi, xi) = (y as i32, x as i32);
